@@ -61,9 +61,15 @@ func GetFileDescriptor(ast *parser.Thrift) *FileDescriptor {
 		includesMap[alias] = path
 	}
 
+	// Same rule as parser.Thrift.GetNamespace, which the generators use: a language keeps
+	// its first namespace, the catch-all "*" keeps its last one.
 	namespaceMap := map[string]string{}
 	for _, ns := range ast.Namespaces {
-		namespaceMap[ns.GetLanguage()] = ns.GetName()
+		lang := ns.GetLanguage()
+		if _, ok := namespaceMap[lang]; ok && lang != "*" {
+			continue
+		}
+		namespaceMap[lang] = ns.GetName()
 	}
 
 	consts := []*ConstDescriptor{}
